@@ -10,9 +10,18 @@
    hist_ok cap w c0 pre h: 0 <= c0, c0 a multiple of 8, message types are i32 values and
    c0 + 2*cap*(number of operations) < lim cap w, where lim = 2^62 for W64 and 2^31 - cap for W32. *)
 From Coq Require Import String.
-Require Import V.Base.MachineInt V.Generated.GenConsts V.Model.LogBase V.Model.Broadcast V.Model.BroadcastShow
-               V.Spec.Lossy V.Oracle.C08Oracle
-               V.Proofs.BroadcastMem V.Proofs.BroadcastInv V.Proofs.BroadcastRefine V.Proofs.LossyProofs V.Proofs.C08Proofs.
+Require Import V.Base.MachineInt.
+Require Import V.Generated.GenConsts.
+Require Import V.Model.LogBase.
+Require Import V.Model.Broadcast.
+Require Import V.Model.BroadcastShow.
+Require Import V.Spec.Lossy.
+Require Import V.Oracle.C08Oracle.
+Require Import V.Proofs.BroadcastMem.
+Require Import V.Proofs.BroadcastInv.
+Require Import V.Proofs.BroadcastRefine.
+Require Import V.Proofs.LossyProofs.
+Require Import V.Proofs.C08Proofs.
 Open Scope Z_scope.
 
 (* K1: the layout constants the model uses are the ones the compiler produced *)
